@@ -19,6 +19,7 @@ func init() {
 }
 
 type downCtx struct {
+	cutsSeen                           int
 	y                                  *Sys
 	prop                               string
 	nRemote                            int
@@ -109,6 +110,10 @@ func runDownFamily(s *Sim, prop string) {
 	}
 
 	closed := map[*downH]bool{}
+	lateWriteErrors := 0
+	if prop == "C04" && t.Bool("late-write-errors", 1, 4) {
+		lateWriteErrors = Pick(t, "late-write-errors-n", 1, 2)
+	}
 	for step := 0; step < maxSteps; step++ {
 		var acts []Action
 		for i, h := range y.Downs {
@@ -184,6 +189,16 @@ func runDownFamily(s *Sim, prop string) {
 		if len(s.Broker.Pend) > 0 {
 			acts = append(acts, Action{Name: "release", W: 3, Do: func() { y.releaseOne() }})
 		}
+		if lateWriteErrors > 0 && y.PingInterval >= time.Hour {
+			acts = append(acts, Action{Name: "late-write-error", W: 1, Do: func() {
+				// the client's next frame (an ack: keepalive is out of reach here) is delivered, but its
+				// write reports an error
+				lateWriteErrors--
+				for _, l := range y.aliveLinks() {
+					l.LateErrorNextWrites(1)
+				}
+			}})
+		}
 		acts = append(acts, Action{Name: "pump", W: 4, Do: func() { y.Pump() }})
 		acts = append(acts, Action{Name: "advance", W: 4, Do: func() {
 			y.Advance(Pick(t, "adv", time.Millisecond, 10*time.Millisecond, 100*time.Millisecond, time.Second, 11*time.Second))
@@ -199,6 +214,7 @@ func runDownFamily(s *Sim, prop string) {
 			acts = append(acts, Action{Name: "cut", W: 1, Do: func() {
 				cutsLeft--
 				hadCut = true
+				dc.cutsSeen++
 				for _, l := range y.aliveLinks() {
 					if t.Bool("cut-ingest", 1, 2) {
 						l.IngestAll()
@@ -365,6 +381,9 @@ func (dc *downCtx) emit(h *downH, bad bool) {
 	s, t := dc.y.s, dc.y.s.T
 	b := s.Broker
 	r := b.Remote(t.Choose("e-remote", dc.nRemote))
+	if r.Ended {
+		return // that upstream has ended: the broker sends nothing more from it
+	}
 	ng := Pick(t, "e-groups", 1, 1, 2, 3)
 	var groups []sentGroup
 	for g := 0; g < ng; g++ {
@@ -391,6 +410,19 @@ func (dc *downCtx) emit(h *downH, bad bool) {
 	if bad {
 		if t.Bool("bad-kind", 1, 2) {
 			upFull = true // EmitChunk replaces the upstream by an unknown alias
+			if t.Bool("bad-next-alias", 1, 2) && dc.cutsSeen == 0 && dc.unread(h) == 0 && h.B.link.PendingB2C() == 0 && dc.everythingAnnounced(h) {
+				// not a far-away number but the very alias the client will hand out next: it has not
+				// announced it, so the chunk is an error - also when a later chunk makes the client
+				// assign that number before this one is read
+				var max uint32
+				for a := range h.B.upAlias {
+					if a > max {
+						max = a
+					}
+				}
+				b.BadUpAlias = max + 1
+				s.Stat("env.bad-upstream-alias-is-the-next-one")
+			}
 		} else {
 			groups[0].Alias = 0xFFF00000 + uint32(len(h.B.Sent))
 			bad = true
@@ -404,15 +436,50 @@ func (dc *downCtx) emit(h *downH, bad bool) {
 		s.Stat("env.bad-upstream-alias")
 	}
 	b.EmitChunk(h.B, r, groups, upFull, bad)
+	b.BadUpAlias = 0
 	if !upFull {
 		s.Stat("env.upstream-alias-form")
 	}
+}
+
+// everythingAnnounced: every upstream the client has met in full form (in a chunk it has read) has
+// been announced to the broker, i.e. the client's alias table holds nothing the broker does not know.
+func (dc *downCtx) everythingAnnounced(h *downH) bool {
+	seen := map[string]bool{}
+	for _, r := range h.Reads {
+		if !r.harvested {
+			return false
+		}
+		if r.Err != nil && !isCtxErr(r.Err) {
+			return false // a read that failed half-way (e.g. on a data id alias) may have registered its upstream already
+		}
+		if c, ok := r.Res.(*iscp.DownstreamChunk); ok && c != nil && r.Err == nil && c.UpstreamInfo != nil {
+			seen[c.UpstreamInfo.StreamID.String()] = true
+		}
+	}
+	return len(seen) == len(h.B.upAlias)
 }
 
 func (dc *downCtx) emitMeta(h *downH) {
 	s, t := dc.y.s, dc.y.s.T
 	src := h.Spec.Sources[t.Choose("m-src", len(h.Spec.Sources))]
 	dc.metaReq += 2
+	if len(dc.y.Downs) == 1 && dc.nRemote > 1 && t.Bool("m-upstream-closed", 1, 6) {
+		// a remote upstream ends: the broker says so after that upstream's last chunk; chunks of it
+		// that the consumer has not read yet (alias form included) are still delivered correctly
+		r := s.Broker.Remote(t.Choose("m-closed-remote", dc.nRemote))
+		inSources := false
+		for _, x := range h.Spec.Sources {
+			if x == r.Info.SourceNodeID {
+				inSources = true
+			}
+		}
+		if !r.Ended && inSources {
+			s.Broker.EmitUpstreamClosedMetadata(h.B, r, dc.metaReq+1)
+			s.Stat("env.remote-upstream-ended")
+			return
+		}
+	}
 	s.Broker.EmitMetadata(h.B, src, fmt.Sprintf("d%d-meta-%d", h.Idx, dc.metaReq), dc.metaReq+1)
 }
 
@@ -497,12 +564,17 @@ func oracleC03(s *Sim, y *Sys) {
 				continue
 			}
 			m := r.Res.(*iscp.DownstreamMetadata)
-			bt, ok := m.Metadata.(*message.BaseTime)
-			if !ok {
+			name := ""
+			switch x := m.Metadata.(type) {
+			case *message.BaseTime:
+				name = x.Name
+			case *message.UpstreamNormalClose:
+				name = "upstream-closed:" + x.SessionID
+			default:
 				s.Violate("C03.metadata-type", "", "%s: metadata of unexpected type %T", d, m.Metadata)
 				continue
 			}
-			perSrcGot[m.SourceNodeID] = append(perSrcGot[m.SourceNodeID], bt.Name)
+			perSrcGot[m.SourceNodeID] = append(perSrcGot[m.SourceNodeID], name)
 			total++
 		}
 		for src, want := range perSrcSent {
@@ -590,6 +662,18 @@ func oracleC04(s *Sim, y *Sys, closedEarlyMap map[*downH]bool, hadCut bool) {
 				if returned[k] == 0 {
 					s.Violate("C04.ack-for-unread-chunk", "", "%s: ack %d acknowledges seq %d of upstream %s which no ReadDataPoints returned", d, a.AckID, k.seq, k.up[len(k.up)-4:])
 				}
+			}
+		}
+		// ... and measured against what the broker actually sent on this stream: a result never names
+		// an (upstream, sequence number) pair the broker did not send, nor one pair more often than sent
+		sentN := map[key]int{}
+		for _, sc := range h.B.Sent {
+			sentN[key{sc.Info.StreamID.String(), sc.Seq}]++
+		}
+		for k, n := range ackedN {
+			if n > sentN[k] {
+				s.Violate("C04.ack-names-wrong-chunk", "", "%s: seq %d of upstream …%s acknowledged %d times, the broker sent that chunk %d times on this stream", d, k.seq, k.up[len(k.up)-4:], n, sentN[k])
+				break
 			}
 		}
 		for k, n := range ackedN {
